@@ -4,7 +4,8 @@
    of these functions alters the generated definitions, and the corresponding lemma below no
    longer checks. *)
 From Coq Require Import ZArith NArith List Bool Lia.
-From Toasty Require Import Model.Quadtree Model.Study Generated.PyramidSrc.
+From Toasty Require Import Model.SrcPrelude Model.Quadtree Model.Study Proofs.QuadtreeP Proofs.SrcPreludeP.
+From Toasty Require Import Generated.PyramidSrc.
 Import ListNotations.
 Local Open Scope Z_scope.
 
@@ -133,4 +134,35 @@ Proof.
   induction fuel as [|fuel IH]; intros p n r H; [discriminate|].
   cbn [src_next_highest_power_of_2_loop] in H |- *.
   destruct (p <? n); [|exact H]. apply IH. exact H.
+Qed.
+
+(* ---- _postfix_pos, generate_pos (generators: the list of items yielded, in order) ---------- *)
+
+Lemma src_postfix_pos_eq : forall (k fuel : nat) (p : pos) (d : nat),
+  k = (S d - pn p)%nat -> (k < fuel)%nat ->
+  src__postfix_pos fuel (to_spos p) (Z.of_nat d) = Some (map to_spos (postfix k p)).
+Proof.
+  induction k as [|k IH]; intros fuel p d Hk Hf; (destruct fuel as [|fuel]; [lia|]);
+    cbn [src__postfix_pos postfix]; rewrite sn_to.
+  - replace (Z.of_nat (pn p) >? Z.of_nat d) with true by (symmetry; apply Z.gtb_lt; lia).
+    reflexivity.
+  - replace (Z.of_nat (pn p) >? Z.of_nat d) with false
+      by (symmetry; rewrite Z.gtb_ltb; apply Z.ltb_ge; lia).
+    rewrite src_pos_children_eq.
+    rewrite (src_concat_map_map_some to_spos _ (fun c => map to_spos (postfix k c))).
+    + cbn [src_app_opt src_cons_opt]. f_equal.
+      rewrite map_app, map_flat_map. reflexivity.
+    + intros c Hc. rewrite (IH fuel c d).
+      * apply src_concat_map_id.
+      * rewrite (children_level p c Hc). lia.
+      * lia.
+Qed.
+
+Lemma src_generate_pos_eq (d fuel : nat) :
+  (S d < fuel)%nat -> src_generate_pos fuel (Z.of_nat d) = Some (map to_spos (generate_pos d)).
+Proof.
+  intros Hf. unfold src_generate_pos, generate_pos.
+  change (mkSP 0 0 0) with (to_spos root).
+  rewrite (src_postfix_pos_eq (S d) fuel root d) by (cbn [pn root]; lia).
+  apply src_concat_map_id.
 Qed.
